@@ -124,7 +124,7 @@ theorem urlDecodeLoop_spec (s : Bytes) : ∀ (n : Nat) (rest pre acc : Bytes) (f
       | succ f =>
         have hrd : Idx.rd s i = .ok c := by rw [hs]; exact Idx.rd_at' pre c t _ hi
         simp only [urlDecodeLoop]
-        rw [if_pos hlen, hrd, Res.bind_ok, g9, g10, g11]
+        rw [if_pos hlen, hrd, IxRes.bind_ok, g9, g10, g11]
         by_cases h37 : c = 37
         · subst h37
           simp only [beq_self_eq_true, if_true]
@@ -143,10 +143,10 @@ theorem urlDecodeLoop_spec (s : Bytes) : ∀ (n : Nat) (rest pre acc : Bytes) (f
             have hrd2 : Idx.rd s (i + 2) = .ok b := by
               have : s = (pre ++ [37, a]) ++ b :: t' := by rw [hs]; simp
               rw [this]; exact Idx.rd_at' _ b _ _ (by rw [hi]; simp)
-            rw [if_neg this, hrd1, Res.bind_ok]
+            rw [if_neg this, hrd1, IxRes.bind_ok]
             by_cases ha : IsHexChar a
             · have ha' : isHexC a = true := (isHexC_iff a).2 ha
-              simp only [ha', Bool.not_true, Bool.false_eq_true, if_false, hrd2, Res.bind_ok]
+              simp only [ha', Bool.not_true, Bool.false_eq_true, if_false, hrd2, IxRes.bind_ok]
               by_cases hb : IsHexChar b
               · have hb' : isHexC b = true := (isHexC_iff b).2 hb
                 simp only [hb', Bool.not_true, Bool.false_eq_true, if_false]
@@ -437,8 +437,8 @@ theorem parseKv_eq (m : Bytes) : parseKv (splitKv 61 m) = .ok (memberEntry m) :=
     simp only []
     by_cases hl : k.length + v.length > 4096
     · rw [if_pos hl, if_pos hl]
-    · rw [if_neg hl, if_neg hl, KvIdx.trim1_spec, Res.bind_ok, urlDecode_eq, Res.bind_ok, KvIdx.trim1_spec, Res.bind_ok,
-        urlDecode_eq, Res.bind_ok, splitMeta_eq]
+    · rw [if_neg hl, if_neg hl, KvIdx.trim1_spec, IxRes.bind_ok, urlDecode_eq, IxRes.bind_ok, KvIdx.trim1_spec, IxRes.bind_ok,
+        urlDecode_eq, IxRes.bind_ok, splitMeta_eq]
       cases pctDecode (trim k) with
       | none => rfl
       | some ks =>
@@ -459,7 +459,7 @@ theorem fromHeaderLoop_eq (cnt : Nat) : ∀ (ms : List Bytes) (p : KvProps), p.c
   | m :: ms, p, hc, hl => by
     simp only [List.map_cons, fromHeaderLoop]
     by_cases hlt : p.entries.length < cnt
-    · rw [if_pos hlt, parseKv_eq, Res.bind_ok]
+    · rw [if_pos hlt, parseKv_eq, IxRes.bind_ok]
       cases hm : memberEntry m with
       | none =>
         simp only []
@@ -493,7 +493,7 @@ theorem fromHeader_eq (h : Bytes) : fromHeader h =
       split <;> omega
     obtain ⟨_, _, _, g4, _⟩ := gen_baggage
     simp only []
-    rw [hmin, g4, KvIdx.tokens_eq, Res.bind_ok,
+    rw [hmin, g4, KvIdx.tokens_eq, IxRes.bind_ok,
       fromHeaderLoop_eq (min (numTok 44 h) 180) (members 44 h) ⟨min (numTok 44 h) 180, []⟩ rfl (by simp)]
     simp
 
@@ -513,7 +513,7 @@ theorem fromHeader_limits (h : Bytes) :
   · intro hl; rw [fromHeader_eq, if_pos hl]
   · intro es he
     rw [fromHeader_eq] at he
-    simp only [Res.ok.injEq] at he
+    simp only [IxRes.ok.injEq] at he
     rw [← he]
     split
     · simp
@@ -532,7 +532,7 @@ theorem fromHeader_only_valid (h : Bytes) (es : Entries) (he : fromHeader h = .o
       pctDecode (trim k) = some ks ∧ pctDecode (trim (metaSplit v).1) = some vs ∧
       ks ≠ [] ∧ Printable ks ∧ Printable vs ∧ e = (cstr ks, cstr (vs ++ (metaSplit v).2)) := by
   rw [fromHeader_eq] at he
-  simp only [Res.ok.injEq] at he
+  simp only [IxRes.ok.injEq] at he
   intro e hmem
   rw [← he] at hmem
   split at hmem
@@ -914,8 +914,8 @@ theorem baggage_extract_eq (car : Carrier) (ctx : PCtx) :
            else { ctx with baggage := some (parsed (car.get [98, 97, 103, 103, 97, 103, 101])) }) := by
   obtain ⟨_, _, _, _, _, _, _, _, _, _, _, _, _, _, g15⟩ := gen_baggage
   unfold Propagation.baggage
-  simp only [Res.bind_ok, g15]
-  rw [fromHeader_eq, Res.bind_ok]
+  simp only [IxRes.bind_ok, g15]
+  rw [fromHeader_eq, IxRes.bind_ok]
   unfold parsed
   generalize (if (car.get [98, 97, 103, 103, 97, 103, 101]).length > 8192 then ([] : Entries) else _) = es
   by_cases he : es = []
@@ -935,7 +935,7 @@ theorem extract_empty_leaves_context (car : Carrier) (ctx : PCtx)
     Propagation.baggage.extract car (.ok ctx) = .ok ctx := by
   rw [baggage_extract_eq]
   rw [fromHeader_eq] at h
-  simp only [Res.ok.injEq] at h
+  simp only [IxRes.ok.injEq] at h
   unfold parsed
   rw [h, if_pos rfl]
 
@@ -945,7 +945,7 @@ theorem extract_installs_parsed (car : Carrier) (ctx : PCtx) (es : Entries) (hne
     Propagation.baggage.extract car (.ok ctx) = .ok { ctx with baggage := some es } := by
   rw [baggage_extract_eq]
   rw [fromHeader_eq] at h
-  simp only [Res.ok.injEq] at h
+  simp only [IxRes.ok.injEq] at h
   unfold parsed
   rw [h, if_neg hne]
 
